@@ -46,10 +46,10 @@ type Case struct {
 }
 
 // deviations of a rogue CLIENT (honest server) and whether they mean "lacks the credential" under a policy
-var clientDevs = []string{"none", "no-cert", "untrusted-ca", "expired", "mismatched-key", "drop-certificate", "drop-certverify", "drop-both", "corrupt-signature", "empty-chain", "substitute-chain"}
+var clientDevs = []string{"none", "no-cert", "untrusted-ca", "expired", "mismatched-key", "drop-certificate", "drop-certverify", "drop-both", "corrupt-signature", "empty-chain", "substitute-chain", "abandon-then-resume"}
 
 // deviations of a rogue SERVER (honest client)
-var serverDevs = []string{"none", "untrusted-ca", "wrong-name", "expired", "mismatched-key", "drop-certificate", "drop-certverify", "drop-both", "corrupt-signature", "empty-chain", "substitute-chain", "drop-ske", "wrong-psk"}
+var serverDevs = []string{"none", "untrusted-ca", "wrong-name", "expired", "mismatched-key", "drop-certificate", "drop-certverify", "drop-both", "corrupt-signature", "empty-chain", "substitute-chain", "drop-ske", "wrong-psk", "name-is-ip"}
 
 // mustReject says whether the honest side must refuse the rogue under its policy.
 // third value: applicable (false = this cell does not exist for the version/family).
@@ -68,6 +68,11 @@ func mustReject(c *Case) (reject, applicable bool) {
 		switch c.Dev {
 		case "no-cert", "drop-both":
 			return c.Policy == 2 || c.Policy == 4, true
+		case "abandon-then-resume":
+			// a history of two connections sharing the server's session store (DTLS 1.2): the first sends its
+			// ClientKeyExchange and nothing else - no Certificate, no Finished - and walks away; the second offers
+			// the session the first one would have got. It never presented a certificate.
+			return c.Policy == 2 || c.Policy == 4, c.Ver == 12
 		case "untrusted-ca", "expired":
 			return c.Policy >= 3, requested
 		case "mismatched-key", "corrupt-signature", "drop-certificate", "drop-certverify", "substitute-chain":
@@ -83,6 +88,10 @@ func mustReject(c *Case) (reject, applicable bool) {
 	switch c.Dev {
 	case "untrusted-ca", "wrong-name", "expired":
 		return verifies, true
+	case "name-is-ip":
+		// the client wants the server at an IP address (ServerName "192.0.2.10", roots configured); the server's
+		// certificate is a genuine CA-issued one for a DNS name and does not list that address
+		return true, c.Verify == "roots"
 	case "mismatched-key", "corrupt-signature", "drop-certificate", "drop-both", "empty-chain", "substitute-chain":
 		return true, true
 	case "drop-certverify":
@@ -157,6 +166,8 @@ func epsFor(c *Case) (cl, sv scen.EP) {
 			cl.RootCA, cl.ServerName, cl.NoVerify = 0, "", true
 		}
 		switch c.Dev {
+		case "name-is-ip":
+			cl.ServerName = "192.0.2.10"
 		case "untrusted-ca":
 			sv.Cert = "untrusted"
 		case "wrong-name":
@@ -189,6 +200,19 @@ func rewrite(c *Case, applied *bool) func(info dtlshandshake.VerifFlightInfo, pk
 			return pkts
 		}
 		var out []*dtlsflight.Packet
+		if c.Dev == "abandon-then-resume" {
+			for _, p := range pkts {
+				if h, ok := p.Record.Content.(*handshake.Handshake); ok && h.Message.Type() == handshake.TypeClientKeyExchange {
+					out = append(out, p)
+					*applied = true
+				}
+			}
+			if len(out) > 0 {
+				return out
+			}
+
+			return pkts
+		}
 		for _, p := range pkts {
 			h, ok := p.Record.Content.(*handshake.Handshake)
 			if !ok {
@@ -291,12 +315,13 @@ func run(c Case, r *pbt.R) {
 		honestPeerCerts   int
 		applied           bool
 		herr, rerr        error
+		storedSessions    int
 	}
 	attempt := func(cc Case) (o outcome, berr *pbt.BubbleError) {
 		hookMu.Lock()
 		defer hookMu.Unlock()
 		applied := false
-		configLevel := map[string]bool{"none": true, "no-cert": true, "untrusted-ca": true, "wrong-name": true, "expired": true, "mismatched-key": true, "wrong-psk": true}
+		configLevel := map[string]bool{"none": true, "no-cert": true, "untrusted-ca": true, "wrong-name": true, "expired": true, "mismatched-key": true, "wrong-psk": true, "name-is-ip": true}
 		if !configLevel[cc.Dev] {
 			dtlshandshake.VerifFlightHook = rewrite(&cc, &applied)
 		} else {
@@ -322,12 +347,40 @@ func run(c Case, r *pbt.R) {
 				cEP.Cert = ""
 				env.ExtraClient = append(env.ExtraClient, dtls.WithGetClientCertificate(func(*dtls.CertificateRequestInfo) (*tls.Certificate, error) { return &cert, nil }))
 			}
+			if c.Dev == "abandon-then-resume" {
+				cEP.Store, sEP.Store = "rogue-client", "server"
+			}
 			p := scen.NewPair(env, &cEP, &sEP)
 			defer p.Close()
 			if p.C.CtorErr != nil || p.S.CtorErr != nil {
 				o.herr = fmt.Errorf("ctor: %v %v", p.C.CtorErr, p.S.CtorErr)
 
 				return
+			}
+			if cc.Dev == "abandon-then-resume" {
+				// first connection: abandoned after the ClientKeyExchange; the server gives up at its deadline
+				p.Handshake(40 * time.Second)
+				if p.S.OK() {
+					o.honestOK, o.herr = true, nil
+
+					return
+				}
+				p.Close()
+				scen.Settle()
+				dtlshandshake.VerifFlightHook = nil
+				// the rogue computed the master secret itself; the harness takes the server's copy instead
+				env2 := scen.NewEnv()
+				env2.Log = env.Log
+				env2.Stores = env.Stores
+				for _, se := range env.Store("server").Snapshot() {
+					_ = env.Store("rogue-client").Set([]byte("S_"+cEP.ServerName), dtls.Session{ID: se.ID, Secret: se.Secret})
+					o.storedSessions++
+				}
+				cEP2 := cEP
+				cEP2.Cert = ""
+				p2 := scen.NewPair(env2, &cEP2, &sEP)
+				defer p2.Close()
+				p = p2
 			}
 			p.Handshake(5 * time.Minute)
 			honest, rogue := p.S, p.C
@@ -401,6 +454,9 @@ func run(c Case, r *pbt.R) {
 
 		return
 	}
+	if c.Dev == "abandon-then-resume" {
+		r.Classf("abandoned-handshake-left-sessions=%d", min(o.storedSessions, 2))
+	}
 	if reject {
 		if o.honestOK {
 			r.Failf(fmt.Sprintf("C03|%s|rogue-%s:%s|accepted", ver, who, c.Dev), "the honest side reports a successful handshake although the %s %s (policy=%d verify=%q family=%s)", who, describeDev(c.Dev), c.Policy, c.Verify, c.Family)
@@ -433,6 +489,8 @@ func describeDev(d string) string {
 		"drop-certificate": "omitted its Certificate message", "drop-certverify": "omitted its CertificateVerify", "drop-both": "omitted Certificate and CertificateVerify",
 		"corrupt-signature": "sent a corrupted signature", "empty-chain": "sent an empty certificate list", "substitute-chain": "substituted another chain after signing",
 		"drop-ske": "omitted its ServerKeyExchange", "wrong-psk": "does not know the pre-shared key",
+		"name-is-ip":          "presented a certificate that does not cover the IP address the client asked for",
+		"abandon-then-resume": "never presented a certificate: it abandoned a first handshake after its ClientKeyExchange and then resumed the session the server had already stored",
 	}[d]
 }
 
